@@ -95,6 +95,10 @@ class LoadsModular(Contract):
                            V.is_dict(v)))
             I.assume(z3.Implies(V.is_dict(v), Val.dsize(v) >= 0))
             return v
+        # a text that is not a JSON document: JSONDecodeError - or, for pathological input, whatever the parser runs
+        # into (RecursionError on thousands of nested brackets, MemoryError ...): any Exception
+        if I.choose_n(2, "loads_failure_kind") == 1:
+            raise PyRaise(I.make_exc("AnyException", V.VStr("parser gave up")), "AnyException")
         ev = I.make_exc("JSONDecodeError", V.VStr("Expecting value"))
         raise PyRaise(ev, "JSONDecodeError")
 
